@@ -139,6 +139,7 @@ type SchemaOpts struct {
 	NoJSON    bool
 	MaxRows   int  // default 12
 	NotNullA  bool // column a NOT NULL in every table
+	NotNullB  bool // column b NOT NULL in every table
 }
 
 // GenSchema generates tables t, u, v… each with an INT primary key id and a random subset of the
@@ -165,7 +166,8 @@ func GenSchema(rnd *rand.Rand, o SchemaOpts) *Schema {
 		}
 		// a and b always exist (join / subquery keys)
 		add("a", KInt, "INT", !o.NotNullA && true, 0.6)
-		add("b", KInt, []string{"INT", "BIGINT", "SMALLINT"}[rnd.Intn(3)], rnd.Intn(2) == 0, 0.3)
+		bType, bNull := []string{"INT", "BIGINT", "SMALLINT"}[rnd.Intn(3)], rnd.Intn(2) == 0
+		add("b", KInt, bType, bNull && !o.NotNullB, 0.3)
 		if rnd.Intn(4) > 0 {
 			add("d", KDec, "DECIMAL(8,2)", true, 0.3)
 		}
@@ -323,6 +325,13 @@ func (e *Expr) SQL() string {
 		return "(" + e.Args[0].SQL() + " " + not + "IN (" + strings.Join(as, ", ") + "))"
 	case "like":
 		return "(" + e.Args[0].SQL() + " " + not + "LIKE " + e.Args[1].SQL() + ")"
+	case "tuplein":
+		// Args: l1, l2, then pairs v11, v12, v21, v22, …
+		var ts []string
+		for i := 2; i+1 < len(e.Args); i += 2 {
+			ts = append(ts, "("+e.Args[i].SQL()+", "+e.Args[i+1].SQL()+")")
+		}
+		return "((" + e.Args[0].SQL() + ", " + e.Args[1].SQL() + ") " + not + "IN (" + strings.Join(ts, ", ") + "))"
 	case "not":
 		return "(NOT " + e.Args[0].SQL() + ")"
 	case "and", "or", "xor":
